@@ -10,6 +10,9 @@ use std::collections::VecDeque;
 
 impl_entry_display_trait!(L1Entry);
 
+#[cfg(qcow2_rs_verif)]
+mod verif;
+
 // L1 table entry:
 //
 // Bit  0 -  8:     Reserved (set to 0)
